@@ -428,12 +428,28 @@ func (c *Ctx) rulesC06x(a *coreAnchors) {
 		c.check(wp && wc, "C06.pair", "Subscriptions."+fn+" records the binding in "+prim+" and "+pairs[prim], f.Pos(), fmt.Sprintf("primary written: %v, ctx index written: %v — a binding missing from the ctx index is never released when its context ends", wp, wc))
 	}
 	for gc, prim := range map[string]string{"gcWhenBinding": "when", "gcWhenTimeBinding": "whenTime", "gcWhenArgsBinding": "whenArgs", "gcWhenQueryBinding": "whenQuery"} {
-		f := c.fn(pm + ":Subscriptions." + gc)
+		f := c.fnOpt(pm + ":Subscriptions." + gc)
 		pf, cf := fieldByName(prim), fieldByName(pairs[prim])
-		if f == nil || pf == nil || cf == nil {
+		if pf == nil || cf == nil {
 			continue
 		}
-		wp, wc := len(writesOfFieldIn(f, pf)) > 0, len(writesOfFieldIn(f, cf)) > 0
+		var where []*ssa.Function
+		if f != nil {
+			where = []*ssa.Function{f}
+		} else {
+			// the gc helper was inlined: the matcher itself unlists the binding
+			proc := map[string]string{"when": "ProcessWhen", "whenTime": "ProcessWhenTime", "whenArgs": "ProcessWhenArgs", "whenQuery": "ProcessWhenQuery"}[prim]
+			f = c.fn(pm + ":Subscriptions." + proc)
+			if f == nil {
+				continue
+			}
+			where = c.hostedFns(f)
+		}
+		wp, wc := false, false
+		for _, g := range where {
+			wp = wp || len(writesOfFieldIn(g, pf)) > 0
+			wc = wc || len(writesOfFieldIn(g, cf)) > 0
+		}
 		c.check(wp && wc, "C06.pair", "Subscriptions."+gc+" removes the binding from "+prim+" and "+pairs[prim], f.Pos(), fmt.Sprintf("primary written: %v, ctx index written: %v", wp, wc))
 	}
 	c.floor("C06.pair", 8)
@@ -462,11 +478,44 @@ func (c *Ctx) rulesC06x(a *coreAnchors) {
 func (c *Ctx) rulesC06reuse() {
 	c.rule("C06.reuse", "a When*/WhenArgs registration that returns the channel of an already registered binding does so only under a guard comparing that binding's context with the caller's ctx: a channel shared across contexts closes when somebody else's context ends (spurious close) or ignores the caller's own context (never closes)")
 	n := 0
+	// the registrations and the private lookup helpers they call (one level),
+	// each examined once; the floor counts what every registration reaches
+	type reuseFn struct {
+		f    *ssa.Function
+		name string
+	}
+	var scan []reuseFn
+	seenF := map[*ssa.Function]bool{}
+	mult := map[*ssa.Function]int{}
 	for _, name := range []string{"When", "WhenNot", "WhenTime", "WhenArgs", "WhenQuery", "WhenTicks", "WhenQueue", "WhenQueueEnds"} {
 		f := c.fnOpt(pm + ":Subscriptions." + name)
 		if f == nil {
 			continue
 		}
+		fs := []*ssa.Function{f}
+		for _, b := range f.Blocks {
+			for _, ins := range b.Instrs {
+				if ci, ok := ins.(ssa.CallInstruction); ok {
+					if cal := ci.Common().StaticCallee(); cal != nil && cal.Parent() == nil && cal.Pkg == f.Pkg && cal.Object() != nil && !cal.Object().Exported() && len(cal.Blocks) > 0 && cal.Signature.Recv() != nil && namedOf(cal.Signature.Recv().Type()) == namedOf(f.Signature.Recv().Type()) {
+						fs = append(fs, cal)
+					}
+				}
+			}
+		}
+		for _, g := range fs {
+			mult[g]++
+			if !seenF[g] {
+				seenF[g] = true
+				nm := name
+				if g != f {
+					nm = g.Name()
+				}
+				scan = append(scan, reuseFn{g, nm})
+			}
+		}
+	}
+	for _, sf := range scan {
+		f, name := sf.f, sf.name
 		var ctxParam ssa.Value
 		for _, p := range f.Params {
 			if isContextType(p.Type()) {
@@ -501,7 +550,7 @@ func (c *Ctx) rulesC06reuse() {
 				if nt := namedOf(fa.X.Type()); nt == nil || nt.Obj().Name() == "Subscriptions" {
 					continue
 				}
-				n++
+				n += mult[f]
 				good := false
 				for _, g := range guardsOf(r.Block()) {
 					bo, ok := g.Cond.(*ssa.BinOp)
